@@ -10,7 +10,8 @@ CLAIMS = {
                 'pack/unpack/index/json (not the raising stub); renderers are deterministic (no set iteration, id, hash, clock); '
                 'no __eq__ compares a field with itself; the AS_PATH 2-byte detour keeps the path. Also: fields kept beside the packed bytes are part of index(); a class indexed by its complete bytes compares every wire field (5 known findings F38); __deepcopy__ is deep for mutable slots; order-independent sets render sorted. Not decided: value-level round '
                 'trips for every family and attribute.'
-                ' Round 3: fixed fields of a decoder read disjoint byte ranges per path (F44 fixed); copies give the copy every declared slot; FlowSpec length round trip (shared C16.R4); memoised renderings do not depend on call arguments.',
+                ' Round 3: fixed fields of a decoder read disjoint byte ranges per path (F44 fixed); copies give the copy every declared slot; FlowSpec length round trip (shared C16.R4); memoised renderings do not depend on call arguments.'
+                ' Round 4: the bytes-keyed attribute cache serves no class whose decoder reads the session (shared with C19.R8).',
         'note': _NOTE,
         'technique': 'MRO-effective member lookup + operand-set comparison of __eq__/index/__hash__, registry completeness, typed iteration checks',
     },
@@ -21,7 +22,8 @@ CLAIMS = {
                 'wraps); the shared validity check runs for API commands and at encode time (known finding F29: not for the '
                 'configuration file); 4-byte ASNs accepted and AS paths built 4 bytes wide. Also: (high << k) + low assemblies bound the low part below 2^k; numbers handed to masking factories are bounded; FlowSpec lists keep their AND bits as written. Not decided: acceptance of every '
                 'token sequence.'
-                ' Round 3: a range guard one short of the field is reported; the family of a prefix is recorded on every returning path; every installing API handler validates first and the next-hop requirement matches the encoder for every SAFI (F54, F55 fixed); a failed conversion is a refusal (F56 fixed); one-octet fields and prefix lengths handed to factories are bounded (F57, F58 fixed).',
+                ' Round 3: a range guard one short of the field is reported; the family of a prefix is recorded on every returning path; every installing API handler validates first and the next-hop requirement matches the encoder for every SAFI (F54, F55 fixed); a failed conversion is a refusal (F56 fixed); one-octet fields and prefix lengths handed to factories are bounded (F57, F58 fixed).'
+                ' Round 4: FlowSpec values are bounded by the octets of their component, nothing written is silently left out, a hexadecimal extended community is 8 octets (F70-F72 fixed); flow rules need no next hop.',
         'note': _NOTE,
         'technique': 'interval upper bounds from dominating range guards, pack-format width table, def-use into lossy factories, call-site presence checks',
     },
@@ -31,7 +33,8 @@ CLAIMS = {
                 'reader agree (240 switch, 0xFnnn up to 4095, 8-bit shift); malformed input raises and is mapped to INVALID, '
                 'never a shorter rule; traffic action (type, subtype) constants; the text parser reassigns the AND flag before '
                 'every operator. Not decided: operator/value semantics of every rule text.'
-                ' Round 3: the length writer is evaluated on boundary lengths; swapped same-typed arguments (shared rule); copies are complete.',
+                ' Round 3: the length writer is evaluated on boundary lengths; swapped same-typed arguments (shared rule); copies are complete.'
+                ' Round 4: encoders, length bits and the NLRI length prefix decided by evaluation; every component decoder yields a BaseValue.',
         'note': _NOTE,
         'technique': 'constant folding, writer/reader layout comparison, bit-width inference, guard checks, path-sensitive flag tracking over the parser CFG',
     },
@@ -40,7 +43,8 @@ CLAIMS = {
                 'or reports failure after the commit; replace_reload compares attributes and next hop, forces re-announcement, '
                 'and withdraws leftovers unconditionally; Reactor.reload touches peers only after success. Also: Neighbor.__eq__ compares everything the OPEN is built from. Not decided: equality '
                 'of peer tables for arbitrary configuration pairs.'
-                ' Round 3: the rollback restores what _clear() saved (F48 fixed); every parse starts from a clean parser (F49 fixed); no section parser reaches a mutator of the shared RIB before the commit (known F50); the offline branch of Peer.reconfigure covers every state but ESTABLISHED.',
+                ' Round 3: the rollback restores what _clear() saved (F48 fixed); every parse starts from a clean parser (F49 fixed); no section parser reaches a mutator of the shared RIB before the commit (known F50); the offline branch of Peer.reconfigure covers every state but ESTABLISHED.'
+                ' Round 4: tuple assignments and keyword arguments of the reload code are normalised before the rules run.',
         'note': _NOTE,
         'technique': 'must-pass-through on the CFG with exception edges, reachability after commit, def-use atoms of the re-announce decision',
     },
@@ -50,7 +54,8 @@ CLAIMS = {
                 'its consumer pops; no decode-reachable rewrite of a class attribute of a multiply-registered class; negotiated is '
                 'read-only while decoding; singletons not mutated (thorough). One known finding (F18). Also: a memo on a shared attribute object does not depend on call arguments; identity-keyed class tables only grow; memo key and value move together. Not decided: equality of '
                 'outputs over message sequences.'
-                ' Round 3: class-level containers filled through self are listed process-wide tables or violations.',
+                ' Round 3: class-level containers filled through self are listed process-wide tables or violations.'
+                ' Round 4: the per-attribute cache of Attribute.unpack (R8, shared with C15.R13).',
         'note': _NOTE,
         'technique': 'runtime-class-write inventory with mypy types, guard atom analysis, registry multiplicity, decode reachability',
     },
@@ -59,7 +64,8 @@ CLAIMS = {
                 'cells) and compared with the reference automaton; what exabgp() writes per state; SIGTERM / KeyboardInterrupt '
                 'withdraw unconditionally; every emitted keyword is in the static route parser and the prefix is a v6 dispatch '
                 'path. Also: the community announced per target x withdraw_on_down x community options. Not decided: timing, the external check command.'
-                ' Round 3: module-level state tuples and hoisted locals are resolved; the as-path precedence (state-specific over generic) is evaluated over the four cases.',
+                ' Round 3: module-level state tuples and hoisted locals are resolved; the as-path precedence (state-specific over generic) is evaluated over the four cases.'
+                ' Round 4: the selector for 1 / 2 / 3 neighbors (F73 fixed) and every line exabgp(target) writes for 8 states x 5 option sets are obtained by evaluating the function on the syntax tree.',
         'note': _NOTE,
         'technique': 'decision-table extraction by exhaustive symbolic evaluation of the if-tree, writer/reader grammar table agreement',
     },
@@ -70,7 +76,8 @@ CLAIMS = {
                 'attribute key table is injective over renderable entries; everything written is ASCII (json.dumps keeps '
                 'ensure_ascii, oneline confines to ASCII); no newline in JSON templates, envelope keys; every message kind has '
                 'an emitter in each encoder class. One known finding (F9). Also: NO_GENERATION pseudo-attributes are rendered only for NEXT_HOP on request (evaluated over the cases); unsent bytes go back to the front of the write queue. Not decided: parseability of every nested fragment.'
-                ' Round 3: fragment kinds (member vs value) of route json() and list contexts (F46 fixed); no strict codec in the encoders; bare JSON numbers are decimal.',
+                ' Round 3: fragment kinds (member vs value) of route json() and list contexts (F46 fixed); no strict codec in the encoders; bare JSON numbers are decimal.'
+                ' Round 4: one member per attribute name (F68 fixed); per-process buffers die with the process (F69 fixed); each process gets the record of its own encoder.',
         'note': _NOTE,
         'technique': 'field-sensitive taint from decode sources + safe-string inference over f-string/format/% interpolations with mypy types, table injectivity, registry exhaustiveness',
     },
@@ -80,7 +87,8 @@ CLAIMS = {
                 'all pack_nlri implementations agree and use the send direction; negotiated ADD-PATH directions; MP_REACH / '
                 'MP_UNREACH layout and codes; next-hop self resolved before every RIB insertion into a fresh attribute '
                 'collection. Not decided: value-level round trip of every route against an independent decoder.'
-                ' Round 3: a default replaces only an absent attribute (membership / None test, not truthiness); negotiated local / peer AS are the true 4-byte values (shared C07.R3); collections that pack differently do not share an index (F45 fixed).',
+                ' Round 3: a default replaces only an absent attribute (membership / None test, not truthiness); negotiated local / peer AS are the true 4-byte values (shared C07.R3); collections that pack differently do not share an index (F45 fixed).'
+                ' Round 4: only IPv4 unicast with an IPv4 next hop reaches the NLRI / withdrawn fields (one turn of the sorting loops evaluated per family, F64 fixed); no UPDATE without a route is emitted (F67 fixed).',
         'note': _NOTE,
         'technique': 'decision-table extraction from lambda/if trees compared with an RFC oracle, sibling table agreement, def-use provenance, constant folding',
     },
@@ -90,7 +98,8 @@ CLAIMS = {
                 'handlers identical in normal form; validator and lazy parser of MP_REACH walk the same offsets; next hop '
                 'attribution (first address); AS_PATH/AS4_PATH merge slices and packing width. Also: the slices of the AS_PATH/AS4_PATH merge are bounded by lengths of the same segment kind; a block carrying MP attributes never enters the one-entry block cache (shared with C19). Not decided: field-by-field '
                 'equality with a reference decoder.'
-                ' Round 3: bit tests on the decode path can succeed (constant masks); the UPDATE handlers store each announced entry with its own next hop.',
+                ' Round 3: bit tests on the decode path can succeed (constant masks); the UPDATE handlers store each announced entry with its own next hop.'
+                ' Round 4: the constant-family End-of-RIB answer follows a look at the MP attributes of the message; withdraws of an UPDATE are applied before its announces are stored (F66 fixed); next hop extraction evaluated on five families.',
         'note': _NOTE,
         'technique': 'flow-sensitive label propagation and reaching definitions, label-flow (taint-style) def-use tracking, sibling normal-form comparison, offset-sequence agreement, constant folding',
     },
@@ -99,7 +108,8 @@ CLAIMS = {
                 'concatenated into the same yield; length predictors agree with writers on the 255 switch; buffers grow only '
                 'under the room test; the prefix that triggers a split starts the next buffer; no room means no message. Not '
                 'decided: the arithmetic at the 255/256 and 4096/65535 boundaries for all inputs. Also: a bare NLRI goes into the NLRI field only after looking at the route next hop; a buffer that went out is emptied before the next message that includes it.'
-                ' Round 3: length predictors and header writers are evaluated on boundary values (sa/evalfn.py); the room tests are evaluated for -1 and 0; the pack_attribute flag is true whenever something is announced.',
+                ' Round 3: length predictors and header writers are evaluated on boundary values (sa/evalfn.py); the room tests are evaluated for -1 and 0; the pack_attribute flag is true whenever something is announced.'
+                ' Round 4: (no new rule; the room formula caught its seed).',
         'note': _NOTE,
         'technique': 'linear-form normalisation, yield/budget name-set comparison, guard extraction, statement-order flow after yields',
     },
@@ -108,7 +118,8 @@ CLAIMS = {
                 'previous-minus-new withdraws; _reset reaches reset_rib; reset drains queues but keeps the cache; the automatic '
                 'End-of-RIB is guarded by (generator exhausted and send_eor) and covers every negotiated family; withdraws always '
                 'leave the cache. Not decided: every cut point between two messages.'
-                ' Round 3: the per-family replay loops have no early exit; each shared RIB is emptied by its own adj-rib setting; swapped same-typed arguments.',
+                ' Round 3: the per-family replay loops have no early exit; each shared RIB is emptied by its own adj-rib setting; swapped same-typed arguments.'
+                ' Round 4: the link to the previous configuration is cut on every path before the first batch.',
         'note': _NOTE,
         'technique': 'dominance on the _main CFG, call-argument folding, guard-set comparison, def-use',
     },
@@ -118,7 +129,8 @@ CLAIMS = {
                 'after a non-empty parse result; the neighbour set of every effect derives from the selector-matched peers; '
                 'an empty selector match is not widened to all peers; every selector term is tested; both line readers keep '
                 'the unterminated tail and the queues are FIFO. Also: selector terms match as whole terms; received_async hands over one command per call. Not decided: arbitrary chunkings at run time, group mode semantics.'
-                ' Round 3: Processes.answer() is data, not a terminal reply (F53 fixed); the scheduler never loses a popped entry (F47 fixed); no error answer after a RIB mutation in one callback (F51 fixed); no action chosen by a fall-back word (F52 fixed); a false partial() gives no route.',
+                ' Round 3: Processes.answer() is data, not a terminal reply (F53 fixed); the scheduler never loses a popped entry (F47 fixed); no error answer after a RIB mutation in one callback (F51 fixed); no action chosen by a fall-back word (F52 fixed); a false partial() gives no route.'
+                ' Round 4: what flush_write_queue takes from the head of a queue goes back to the head.',
         'note': _NOTE,
         'technique': 'path-sensitive count lattice {0,1,>=2} over handler CFGs with interprocedural summaries, def-use provenance of the peer set, sibling shape checks',
     },
@@ -128,7 +140,8 @@ CLAIMS = {
                 'update; updates() emits refresh < withdraw < announce; every queue is detached before the first yield and '
                 'never touched through self across a suspension; in_cache compares attributes and next hop; who writes '
                 'the tables (thorough). One known finding (F3) is listed. Also: one way into each queue (single writer), nothing emitted from one queue is filtered by another. Not decided: convergence over all histories.'
-                ' Round 3: in_cache compares the NLRI bytes where index() is assembled from parts (F42 fixed); no attribute group is taken out of the announce queue; withdraws are held back for the first batch only.',
+                ' Round 3: in_cache compares the NLRI bytes where index() is assembled from parts (F42 fixed); no attribute group is taken out of the announce queue; withdraws are held back for the first batch only.'
+                ' Round 4: update_cache stores the route whatever the cache held.',
         'note': _NOTE,
         'technique': 'alias-aware def-use rules, CFG reachability/dominance between yield groups, must-pass-through on queueing paths',
     },
@@ -139,7 +152,8 @@ CLAIMS = {
                 'pack_capabilities and Capabilities.unpack describe the same standard and RFC 9072 layouts; each capability '
                 'is advertised under its own configuration flag. Also: the local AS never depends on what the peer announced; the iBGP test of the router-id collision uses the negotiated peer AS. Not decided: equality with an independent computation for '
                 'arbitrary OPEN pairs.'
-                ' Round 3: the family intersection is recognised as loop or comprehension; each capability is filled from its own neighbor list (addpaths / nexthops / families).',
+                ' Round 3: the family intersection is recognised as loop or comprehension; each capability is filled from its own neighbor list (addpaths / nexthops / families).'
+                ' Round 4: refusals, ADD-PATH directions and capability TLVs are read from guard facts and written-out terms, not from nesting.',
         'note': _NOTE,
         'technique': 'guard/term extraction into (side, capability) sets compared with an RFC oracle table, def-use, constant folding, writer/reader layout comparison',
     },
@@ -150,7 +164,8 @@ CLAIMS = {
                 'non-Notify raises reachable from the decoders are limited to the triaged defensive guards (a new one '
                 'fires), the last-resort barriers exist, unknown attributes are kept/ignored not refused. Also: the text of every Notify is ASCII whatever the peer sent (safe-string inference, class-hierarchy dive into __str__); no search of a message-built list inside a loop on the decode path; class-table lookups with a message-derived key are guarded. Not decided: '
                 'implicit IndexError/struct.error on every read, the linear-time bound.'
-                ' Round 3: call graph follows property getters (lazy parsers) and typing.Protocol implementers restricted to registered classes (731 decode-reachable functions); dict lookups with computed keys outside the barrier are guarded (F40 fixed); message classes sharing a TYPE agree on the attributes read after a cast (F41 fixed); octets handed to Notify as data are bounded while a strict decode logs them; the OPEN parameter codec (shared C07.R5).',
+                ' Round 3: call graph follows property getters (lazy parsers) and typing.Protocol implementers restricted to registered classes (731 decode-reachable functions); dict lookups with computed keys outside the barrier are guarded (F40 fixed); message classes sharing a TYPE agree on the attributes read after a cast (F41 fixed); octets handed to Notify as data are bounded while a strict decode logs them; the OPEN parameter codec (shared C07.R5).'
+                ' Round 4: every next-hop length Family.size lists is accepted with and without RFC 8950 (F63 fixed); the OPENs are followed into RequirePath.setup.',
         'note': _NOTE,
         'technique': 'resolved call graph + SCC, syntax-directed loop-progress walk with interval lower bounds, interprocedural explicit exception flow with a frozen triage table',
     },
@@ -161,7 +176,8 @@ CLAIMS = {
                 'sent and read, on every path; senders of UPDATE/EOR/REFRESH/OPERATIONAL only below Peer._main; every '
                 'move to IDLE paired with a closing call; up/down emission sites and their ordering in the failure arms. '
                 'Not decided: real interleavings (second connection, task cancellation).'
-                ' Round 3: change(OPENCONFIRM) follows validate_open on every path (event-order typestate for both transitions).',
+                ' Round 3: change(OPENCONFIRM) follows validate_open on every path (event-order typestate for both transitions).'
+                ' Round 4: one processes.up site per session, outside any loop; enum expansions and constant containers of states are resolved.',
         'note': _NOTE,
         'technique': 'per-function CFG + path-sensitive typestate propagation with correlated guards, call-graph who-may-call, dominance',
     },
@@ -171,7 +187,8 @@ CLAIMS = {
                 'of _reader_async; unknown type 1/3 and reader error re-raised unchanged; msg_size raised only from '
                 'negotiated.msg_size after negotiated.received; no cancellable partial read that is then resumed. Not '
                 'decided: behaviour under every actual segmentation (asyncio sock_recv_into contract trusted).'
-                ' Round 3: no message leaves the reader between the header read and the per-type length check.',
+                ' Round 3: no message leaves the reader between the header read and the per-type length check.'
+                ' Round 4: length and type decoded as unsigned octets 16-17 and octet 18 (both readers evaluated on two headers); Message.Length entries classified by evaluation.',
         'note': _NOTE,
         'technique': 'decision-plan extraction + sibling comparison, constant folding, def-use shape check of the read loop',
     },
@@ -181,7 +198,8 @@ CLAIMS = {
                 'Notify arm the NOTIFICATION is written at most once, then reset, nothing after (path-sensitive count); '
                 'every registered message type is handled or refused in ESTABLISHED. Also: a NOTIFICATION is written only from the except Notify arm; framing errors are handed back with the transport open; every refusal generator that is built is iterated or scheduled. Not decided: the bytes written in '
                 'every state/fault combination.'
-                ' Round 3: the Notify text rule is shared (C10.R8): a Notify that can not be built is answered 1/0 instead of its own class.',
+                ' Round 3: the Notify text rule is shared (C10.R8): a Notify that can not be built is answered 1/0 instead of its own class.'
+                ' Round 4: the TimeoutError arm of a timed read stands where the expiry is raised and raises Notify; cease subcodes kept on the object are checked at every store.',
         'note': _NOTE,
         'technique': 'constant folding of all Notify sites, explicit exception flow, path-sensitive count lattice over the handler CFG, registry exhaustiveness',
     },
@@ -190,7 +208,8 @@ CLAIMS = {
                 'returning first and last_read refreshed only by real messages; keepalive = holdtime/3 and need_ka firing '
                 'rule; both timer calls unconditional in every main-loop iteration before outbound work; bounded outbound '
                 'batch; open wait -> 5/1. No statement about real time is decided.'
-                ' Round 3: need_ka is evaluated for clock values before / at / after the due time; every definition of the batch size folds to a small constant.',
+                ' Round 3: need_ka is evaluated for clock values before / at / after the due time; every definition of the batch size folds to a small constant.'
+                ' Round 4: the receive timer takes the hold time of each session; keepalive() evaluated for four hold times.',
         'note': _NOTE,
         'technique': 'guard extraction + def-use on the timer functions, loop-body position/dominance, constant folding',
     },
@@ -200,7 +219,8 @@ CLAIMS = {
                 'what is left, every registered attribute has a disposition (flag folded through the MRO or only '
                 'Notify(3,x) escapes), both failure arms of the walk honour both flags, discard continues the walk, '
                 'the RFC 7606 section 7 class table. Also: a malformed block neither enters the block memo nor leaves its key pointing at an older collection. Not decided: which malformed values each decoder recognises.'
-                ' Round 3: the except arms are evaluated for the three RFC 7606 classes (shape independent); every path through the zero-length branch ends in a marker; nested declared lengths in the attribute decoders are compared with what is left (F43 fixed).',
+                ' Round 3: the except arms are evaluated for the three RFC 7606 classes (shape independent); every path through the zero-length branch ends in a marker; nested declared lengths in the attribute decoders are compared with what is left (F43 fixed).'
+                ' Round 4: a registered code with unregistered flags is handled in the flags-error branch and never reaches the unknown-attribute tail.',
         'note': _NOTE,
         'technique': 'AST pattern + resolved-callee rules, constant folding of class flags through the MRO, interprocedural explicit exception flow',
     },
